@@ -26,6 +26,7 @@ CLS = 'obj_class(old(lexer).buf@, old(lexer).pos as int)'
 ARMS = [(0, 'value_no_token'), (1, 'value_dict_stream'), (2, 'value_int_ref'), (3, 'value_real'), (4, 'value_name'), (5, 'value_array'),
         (6, 'value_lit_string'), (7, 'value_hex_string'), (8, 'value_bool_null')]
 
+FITS = '(dec_signed(lexeme.slice@) matches Some(v) && i32::MIN <= v <= i32::MAX)'
 IND = 'indirect_at(r, old(lexer).buf@, old(lexer).file_offset as int, opt_deref(decoder), old(lexer).pos as int)'
 D1 = '(max_depth - 1) as nat'
 ARR_TOTAL = 'arr_at(r, e0, pa, %s)' % D1
@@ -115,6 +116,14 @@ UNIT = {
                  ('check_err_kind', 'r matches Err(e) ==> e is PrimitiveNotAllowed')],
      'rewrites': [{'rule': 'R3', 'find': 'PdfError::PrimitiveNotAllowed { allowed, found: flags }', 'replace': 'PdfError::PrimitiveNotAllowed'}]},
 
+  # added to /repo by the repair of serops/findings/big_real_as_integer (C08): an all-digit token beyond the i32 range is a real, not an
+  # error. `optional`: on a tree without the repair the item renders as nothing and `_parse_with_lexer_ctx/value_int_ref` fails (the defect).
+  'integer_or_real': {'kind': 'fn', 'file': P, 'container': None, 'name': 'integer_or_real', 'ret': 'res', 'optional': True,
+     'props': ['C03', 'C08', 'C01'],
+     'ensures': [('fits_i32_is_integer', FITS + ' ==> (res matches Ok(Primitive::Integer(x)) && x == dec_signed(lexeme.slice@).unwrap())'),
+                 # beyond the implementation's integer range (or not `[+-]?d+` at all): the token read as a real; Err only if it is no f32 literal
+                 ('beyond_i32_is_real', '!' + FITS + ' ==> match f32_of(lexeme.slice@) { Some(f) => res matches Ok(Primitive::Number(x)) && x == f, None => res is Err }')]},
+
   'parse_with_lexer_ctx': {'kind': 'fn', 'file': P, 'container': None, 'name': 'parse_with_lexer_ctx', 'ret': 'res',
      'props': ['C03', 'C04', 'C11', 'C01', 'C06'],
      'requires': ['old(lexer).wf()'],
@@ -158,7 +167,7 @@ UNIT = {
         top(' proof { lemma_flag_bits(flags.bits); lemma_obj_unfold(r, e0, p0, max_depth as nat); }'), BLIT,
         {'rule': 'R1', 'find': 'let obj = if first_lexeme.equals(blit("<<")) {',
          'replace': 'let ghost w = first_lexeme.slice@; let ghost t1 = lexer.pos as int;'
-                    ' proof { lemma_kw_first(); lemma_real_iso_is_lit(w); axiom_f32_accepts_iso_reals(w); lemma_starts_slash(w); }'
+                    ' proof { lemma_kw_first(); lemma_real_iso_is_lit(w); lemma_int_is_real_iso(w); axiom_f32_accepts_iso_reals(w); lemma_starts_slash(w); }'
                     ' let obj = if first_lexeme.equals(blit("<<")) {'},
         {'rule': 'R7', 'find': 'ParseFlags::INTEGER | ParseFlags::REF', 'replace': 'flags_or(ParseFlags::INTEGER, ParseFlags::REF)'},
         {'rule': 'R3', 'find': 'PdfError::PrimitiveNotAllowed { allowed: ParseFlags::STREAM, found: flags }', 'replace': 'PdfError::PrimitiveNotAllowed'},
